@@ -20,6 +20,8 @@ EXPLANATION = (
 
 BAD = {"rev", "skip", "take", "step_by", "chain", "filter", "skip_while", "take_while", "peekable", "cycle", "flat_map", "flatten", "filter_map", "scan", "inspect", "fuse", "by_ref", "cloned", "copied"}
 GS = "<GenericArray<$0,$1> as GenericSequence<$0>>::"
+# `pipeline.collect()` is `FromIterator::from_iter(pipeline)` (the provided body of Iterator::collect): one name for the rules
+COLLECT = ("core::iter::FromIterator::from_iter", "core::iter::Iterator::collect")
 FS = "<GenericArray<$0,$1> as FunctionalSequence<$0>>::"
 
 
@@ -204,12 +206,34 @@ def generate_loop_form(an, owners, N):
     once = lp.count_on_paths(lambda c: c.fn == "core::ops::FnMut::call_mut") == {1}
     idx = lp.index_val()
     args_ok = len(fcalls) == 1 and idx is not None and fcalls[0].args[1] == ("A", "tuple", (idx,))
+    if not shape and isinstance(pipe, tuple) and len(pipe) == 5 and pipe[:3] == ("V", "iter", "slice") and not lp.backward and len(fcalls) == 1:
+        # the slots iterated directly, the index kept by hand: f is given the current value of a step counter - a cell (a local, or the builder's
+        # own position) that is 0 whenever the loop is entered and is raised by exactly one in every step, so in step k it holds k
+        from ..loops import initial_cell_value
+        from ..absint import State
+        arg = fcalls[0].args[1]
+        cnt = arg[2][0] if arg[0] == "A" and arg[1] == "tuple" and len(arg[2]) == 1 and arg[2][0][0] == "I" else None
+        counter = None
+        if cnt is not None:
+            for s_ in an.assigns + an.stores:
+                if s_["site"][0] in lp.blocks and s_["val"][0] == "I" and s_["val"][1] == cnt[1] + Poly.const(1):
+                    cell = s_["cell"]
+                    head = an.read_cell(State(lp.nxt.mem, lp.nxt.facts), cell[0], cell[1], {"k": "prim", "n": "usize"})
+                    sites = {x["site"] for x in an.assigns + an.stores if x["cell"] == cell and x["site"][0] in lp.blocks}
+                    per_step = lp.count_on_paths(lambda c: False) is not None and len(sites) == 1
+                    if head == cnt and per_step and initial_cell_value(an, lp, cell[0], cell[1]) == Poly.const(0) and an.dominates(fcalls[0].bb, s_["site"][0]):
+                        counter = cell
+        shape = counter is not None
+        pipe = ("V", "iter", "enumerate", pipe)   # the counted traversal is the enumerated one: the remaining clauses are stated on it
+        args_ok = shape
     ws = [c for c in lp.calls() if c.fn in ("core::mem::MaybeUninit::<T>::write", "core::ptr::write")]
     slots = lp.slot_ptrs()
     w_ok = len(ws) == 1 and len(fcalls) == 1 and ws[0].args[1] == fcalls[0].ret and len(slots) == 1 and ws[0].args[0][:3] == slots[0][:3] and lp.count_on_paths(lambda c: c in ws) == {1}
     exits = not lp.breaks
+    if shape and not arr_ok:
+        arr_ok = any(full_slice(an, lp.nxt.facts, pipe[3], N, lambda bse, a_=arrp: bse == a_[1]) and pipe[3][4] is True for arrp in builder_array_ptrs(an, lp.nxt, owners))
     ok = shape and arr_ok and once and args_ok and w_ok and exits and not bad_adaptors(pipe)
-    return ok, ("loop over enumerate(iter_mut over the builder's whole array [0, N)): %s/%s; left only when next() returns None: %s; each step calls F exactly once: %s, with the enumerate index: %s, and writes the result into the paired slot: %s; no reordering adaptor: %s"
+    return ok, ("loop over enumerate(iter_mut over the builder's whole array [0, N)) - or over the slots with a step counter starting at 0: %s/%s; left only when next() returns None: %s; each step calls F exactly once: %s, with the enumerate index: %s, and writes the result into the paired slot: %s; no reordering adaptor: %s"
                 % (shape, arr_ok, exits, once, args_ok, w_ok, not bad_adaptors(pipe)))
 
 
@@ -326,7 +350,12 @@ def pipelines_only(ctx, cfg, key, an, judged_fn, unwrap=False):
     def from_judged(v):
         return any(v == c.ret or (unwrap and v == ("V", "proj", ("proj", c.ret, (("v", 0), 0)))) for c in js)
     out = []
-    if not at_.returns or not all(from_judged(r["val"]) for r in at_.returns):
+    # (a path taken only for N == 0 owes nothing: there is no index to visit and the empty array has one value)
+    st_ = at_.body.get("impl_self")
+    n0 = at_.tenv.length(adt_args(st_)[1]) if st_ is not None and is_ga(st_) else None
+    def empty_only(r):
+        return n0 is not None and at_.prove(r["facts"], "Eq", n0, Poly.const(0))
+    if not at_.returns or not all(from_judged(r["val"]) or empty_only(r) for r in at_.returns):
         out.append("a return path of the body does not return the result of a judged pipeline")
     if not all(c.at in sites for c in js):
         out.append("a pipeline of the expanded body was not judged")
@@ -350,7 +379,7 @@ def check_map_fold(ctx, cfg):
     if b is not None:
         an = ctx.analysis(cfg, key)
         N = an.tenv.length(adt_args(b["impl_self"])[1])
-        fi = [c for c in an.calls if c.fn == "core::iter::FromIterator::from_iter"]
+        fi = [c for c in an.calls if c.fn in COLLECT]
         ok = len(fi) >= 1
         dets = []
         for f in fi:
@@ -384,7 +413,7 @@ def check_map_fold(ctx, cfg):
             ok = ok and good
             dets.append(det_)
         others = [c.fn for c in an.calls if c.fn.startswith("core::iter::") and c.fn.split("::")[-1] in ("fold", "rfold", "for_each", "try_fold", "collect")]
-        probs = pipelines_only(ctx, cfg, key, an, ("core::iter::FromIterator::from_iter",))
+        probs = pipelines_only(ctx, cfg, key, an, COLLECT)
         ok = ok and not others and not probs
         ctx.ob(rule, key, ok, "; ".join(dets + probs) if (dets or probs) else "no from_iter pipeline found", at=b["at"], cfg=cfg)
         n += 1
@@ -412,6 +441,14 @@ def check_map_fold(ctx, cfg):
                 dets.append("traversal by %s (a left fold must use Iterator::fold - or try_fold with an uninhabited residual - over the forward iterator)" % f.fn)
                 continue
             it_, init, cv = resolved_args(an, f)
+            if it_ == ("V", "iter", "into_iter", ("V", "arg", 1)) and f.fn == "core::iter::Iterator::fold":
+                # the trait-default shape written as the override: self's by-value iterator folded with the caller's own f (by value or by
+                # `&mut`, which is FnMut as well) - the iterator's fold is the left fold over the elements in index order (C06.S)
+                f_ok = cv == ("V", "arg", 3) or (cv[0] == "P" and cv[1] in (("local", 3), ("arg", 3)) and not cv[2].t)
+                good = init == ("V", "arg", 2) and f_ok
+                ok = ok and good
+                dets.append("fold(into_iter(self), init, f) over self's by-value iterator (C06.S): init passed through: %s; the caller's f handed on unchanged: %s" % (init == ("V", "arg", 2), f_ok))
+                continue
             src_ok = full_slice(an, f.facts, it_, N, consumer_array_base(an, f, owners)(("V", "arg", 1)))
             cb, ca = closure_body(ctx, cfg, cv)
             c_ok = False
@@ -447,7 +484,7 @@ def check_zip_body(ctx, cfg, key, branches):
         return 0
     an = ctx.analysis(cfg, key)
     owners = owner_adts(ctx.db(cfg))
-    fis = [c for c in an.calls if c.fn == "core::iter::FromIterator::from_iter"]
+    fis = [c for c in an.calls if c.fn in COLLECT]
     # length parameter of Self
     st = b.get("impl_self")
     N = an.tenv.length(adt_args(st)[1]) if st is not None and is_ga(st) else None
@@ -529,7 +566,7 @@ def check_zip_body(ctx, cfg, key, branches):
                     dets[-1] = "counting form over 0..N: the %s side(s) moved out by their consumers' own cursors (made from the right operands, cursor 0 at the start), the other side zipped with the range: %s; closure calls f(left, right) exactly once with the paired items: %s" % (
                         "/".join(k for (k, _v) in (left, right) if k == "slice"), sides2, ok)
         ok_all = ok_all and ok
-    probs = pipelines_only(ctx, cfg, key, an, ("core::iter::FromIterator::from_iter",))
+    probs = pipelines_only(ctx, cfg, key, an, COLLECT)
     ctx.ob(rule, key, ok_all and not probs, "; ".join(dets + probs) if (dets or probs) else "no from_iter pipeline found", at=b["at"], cfg=cfg)
     ctx.sample({"rule": rule, "fn": key, "cfg": cfg, "detail": dets})
     return 1
@@ -627,7 +664,7 @@ def check_receivers(ctx, cfg):
     b = ctx.body(cfg, "trait FunctionalSequence::map", rule)
     if b is not None:
         an = ctx.analysis(cfg, "trait FunctionalSequence::map")
-        fi = [c for c in an.calls if c.fn == "core::iter::FromIterator::from_iter"]
+        fi = [c for c in an.calls if c.fn in COLLECT]
         ok = len(fi) == 1 and fi[0].args[0] == ("V", "iter", "map", ("V", "iter", "into_iter", ("V", "arg", 1)), ("V", "arg", 2)) and all(r["val"] == fi[0].ret for r in an.returns)
         ctx.ob(rule, "trait FunctionalSequence::map", ok, "default map = from_iter(map(into_iter(self), f)): %s" % ok, at=b["at"], cfg=cfg)
         n += 1
@@ -736,7 +773,7 @@ def check_default_clone(ctx, cfg, rule="C08.D", only_default=False):
             # element-wise through the collecting constructor: from_iter(self.iter().cloned()) / from_iter(self.iter().map(Clone::clone)):
             # the k-th item is self[k].clone(), evaluated when slot k is filled; no clone call for the probe (the slice iterator is exhausted)
             N_ = an.tenv.length(adt_args(b["impl_self"])[1])
-            fi = [c for c in pc if c.fn == "core::iter::FromIterator::from_iter"]
+            fi = [c for c in pc if c.fn in COLLECT]
             if len(fi) == 1:
                 pipe = fi[0].args[0]
                 inner = None
